@@ -585,7 +585,7 @@ def op_strategy():
         st.fixed_dictionaries({'op': st.just('assign_idx'), 'parent': SHALLOW, 'child': st.integers(0, 9), 'i': st.integers(-1, 2)}),
         st.fixed_dictionaries({'op': st.just('reattach'), 'parent': SHALLOW, 'child': REF}),
         st.fixed_dictionaries({'op': st.just('assign_existing'), 'parent': NEAR, 'child': st.fixed_dictionaries({'r': st.integers(0, 2), 'p': st.lists(st.integers(0, 3), min_size=1, max_size=2)}),
-                               'how': st.sampled_from(['name', 'index']), 'i': st.integers(0, 1)}),
+                               'how': st.sampled_from(['name', 'index']), 'i': st.integers(-2, 2)}),
         st.fixed_dictionaries({'op': st.just('add_x'), 'parent': SHALLOW, 'k': st.integers(0, 30), 'foreign': st.sampled_from([False, False, False, True])}),
         st.fixed_dictionaries({'op': st.just('add_x'), 'parent': SHALLOW, 'k': st.integers(0, 30), 'foreign': st.just(False)}),
         st.fixed_dictionaries({'op': st.just('assign_text'), 'parent': NEAR, 'k': st.integers(0, 3), 'val_k': st.integers(0, 3),
@@ -661,6 +661,18 @@ def histories(draw, cells, max_ops):
         for _ in range(draw(st.integers(1, 2))):
             ops.append({'op': 'assign_copy', 'parent': P, 'k': draw(st.integers(1, 3)), 'i': 0, 'how': draw(st.sampled_from(['name', 'add'])),
                         'mismatch': draw(st.integers(0, 2))})
+    if draw(st.integers(0, 7)) == 0:
+        # scenario seed: three or four repetitions of one child with a child of another name listed between them, then one of
+        # the parent's OWN children assigned over another repetition (earlier or later one, by index - negative too - or by name)
+        R0 = draw(st.integers(0, 2))
+        ops.append({'op': 'add_x', 'parent': {'r': R0, 'p': []}, 'k': draw(st.integers(1, 4)), 'foreign': False})
+        P = {'r': R0, 'p': [-1]}
+        K, K2 = draw(st.integers(1, 3)), draw(st.integers(4, 6))
+        seq = [K, K, K] + ([K] if draw(st.booleans()) else [])
+        seq.insert(draw(st.integers(1, len(seq) - 1)), K2)
+        ops += [{'op': 'add_x', 'parent': P, 'k': k, 'foreign': False} for k in seq]
+        ops.append({'op': 'assign_existing', 'parent': P, 'child': {'r': R0, 'p': [-1, draw(st.integers(0, len(seq) - 1))]},
+                    'how': draw(st.sampled_from(['index', 'index', 'name'])), 'i': draw(st.integers(-3, 3))})
     for op in drawn:
         if op['op'] == 'add_x_twice':       # two children of the same name: two plain operations
             ops += [dict(op, op='add_x', foreign=False), dict(op, op='add_x', foreign=False)]
